@@ -4,5 +4,5 @@ CONSTANTS
   K = 4
   B = 2
   MaxWords = 2
-INVARIANTS SelectOK SelectR64OK InverseLaw IndexShape
+INVARIANTS SelectOK SelectR64OK InverseLaw IndexShape DenseFormOK
 CHECK_DEADLOCK FALSE
